@@ -12,16 +12,20 @@ from pyvc import api, verify
 from pyvc.api import MapperContract
 
 LEVEL = "proof"
-SPECS = [c04.Rid]
+SPECS = [c04.Rid, den]
 EXPLANATION = (
     "The closure built by make_subst_func is proved to be the look-up rule of the statement (whole-node key first, then a "
     "Variable's name, else None; nothing else is consulted); SubstitutionMapper.map_variable/map_subscript/map_lookup are "
     "proved to return sigma(node) itself when it is not None (so replacements are not substituted again) and otherwise to "
     "behave as the identity traversal; every other map_<K> the mapper inherits is proved against the identity contract "
-    "(children mapped with rec, same object when nothing changed). The semantic statement evaluate(substitute(e, s), env) = "
-    "den_s(e, env) follows by the substitution lemma over den, which is validated by the exhaustive bounded run, not proved.")
+    "(children mapped with rec, same object when nothing changed). The semantic statement is proved as the substitution "
+    "lemma over den, one step of structural induction per node class: given den(self.rec(c), env) ~ den_sigma(c, env) for the "
+    "children (outcome for outcome), den(self(e), env) ~ den(sigma(e), env) when e is an intercepted leaf with a replacement, "
+    "and otherwise den's own defining clause with den_sigma in the recursive positions; n-ary classes and Call for every "
+    "operand count 0..3 with arbitrary operands. Not covered by the lemma (bounded only): CallWithKwargs, CommonSubexpression "
+    "(known finding C04-identity-cse-zero), operand counts above 3. evaluate = den is C02.")
 ASSUMPTIONS = ["subst_func is a pure function (uninterpreted sigma)", "M-IND", "dispatcher and cache contracts (C04/C05)",
-               "the substitution lemma den(Subst(e, s), env) = den_s(e, env) is bounded-validated only"]
+               "substitution lemma: stated bound 3 on the operand count of n-ary nodes and calls; CallWithKwargs and CommonSubexpression bounded only"]
 TRUSTED_BASE = ["contracts/specs.py:den"]
 
 
@@ -33,6 +37,7 @@ def proof_jobs(tier):
     jobs = [("function", fc, None, None) for fc in K.SUBST_FUNC]
     for k in classes() + ["<list>", "<tuple>"]:
         jobs.append(("mapper", K.SUBSTITUTION, k, None))
+    jobs += [("function", fc, None, None) for fc in K.LEMMA]
     return jobs
 
 
